@@ -253,6 +253,32 @@ def R3_accessors(run):
                         bad.append("[%s] := [%s]" % (didx, sidx))
         run.check("R3", "copy@" + path, not bad and cnt > 0, "%s copies a field into a differently named / indexed field: %s" % (path, bad), loc=fn.loc(),
                   detail="%d field copies, names and indices agree" % cnt)
+        # an `update(&mut self, update: &XUpdate)` applies the whole update on every path: each field of the update struct is
+        # stored unconditionally (a de-initialised tick must not keep its old net / gross, which later updates read back)
+        if fn.name == "update" and fn.argc == 2:
+            sty = fn.locals[2]["t"].lstrip("&").replace("mut ", "").strip()
+            sadt = facts.adts.get(sty)
+            if sadt is None or not sadt.get("variants"):
+                run.missing("R3", "copy-complete@" + path, "type of the update parameter (%s) not found" % sty, loc=fn.loc())
+                continue
+            want = [f["name"] for f in sadt["variants"][0]["fields"]]
+            rets = set(cfg.return_blocks(fn))
+            always = set()
+            for bi, bb in enumerate(fn.blocks):
+                if bb["c"]:
+                    continue
+                stored = set()
+                for st in bb["s"]:
+                    if st["k"] == "=" and st["p"].get("p"):
+                        stored |= {e["f"] for e in st["p"]["p"] if isinstance(e, dict) and "f" in e}
+                t = bb["t"]
+                if t["k"] == "call" and (callee_path(t) or "").rsplit("::", 1)[-1].startswith("set_"):
+                    stored.add((callee_path(t) or "").rsplit("::", 1)[-1][4:])
+                if stored & set(want) and not (cfg.reach(fn, 0, cut_blocks=[bi]) & rets):
+                    always |= stored
+            lacking = [f for f in want if f not in always]
+            run.check("R3", "copy-complete@" + path, not lacking, "%s does not store %s on every path (a partial update leaves stale values behind)" % (path, lacking),
+                      loc=fn.loc(), detail="all %d fields of %s stored unconditionally" % (len(want), sty.rsplit("::", 1)[-1]))
 
 
 def R4_routing(run):
